@@ -480,8 +480,11 @@ IPOnly == Normal([Wild EXCEPT !.dl_type = IPType])
 HMods(k, seq, when) == [i \in 1..Len(seq) |-> MD(MatchPath(k), "setf", seq[i].f, when[i], seq[i].form)]
 ApplyAll(m, mods) == FoldLeft(LAMBDA x, md : IF md.op = "setf" THEN PutF(x, md.path, md.v) ELSE Put(x, md.path, md.op, md.v),
                               m, mods)
+\* every value that gets encoded - after the last "pre" write and after each "post" write - is in the domain
 GoodH(S) == {c \in S : WF(c.msg) /\ Constructible(c.msg) /\
-                       LET fin == ApplyAll(c.msg, c.mods) IN WF(fin) /\ Constructible(fin)}
+                       \A i \in 0..Len(c.mods) :
+                         (i = Len(c.mods) \/ c.mods[i + 1].when = "post") =>
+                           LET x == ApplyAll(c.msg, SubSeq(c.mods, 1, i)) IN WF(x) /\ Constructible(x)}
 Seqs(A, d) == UNION {[1..n -> A] : n \in 1..d}
 Whens(n, w) == [i \in 1..n |-> w]
 \* every sequence of up to d writes from alphabet A on the match of a structure of kind k that starts as base
